@@ -17,6 +17,8 @@ FRAMES = {
                  "families": ["readonly_ops", "template_subst"]},
     "_value_to_blackbird": {"module": P + "program.py", "qual": "_value_to_blackbird", "params": ["v", "tdm"], "modifies": [], "deterministic": True,
                             "props": ["C13", "C19", "C01", "C09"], "families": ["hashseed", "roundtrip"]},
+    "_bind_parameters": {"module": P + "program.py", "qual": "_bind_parameters", "params": ["v", "values"], "modifies": [], "deterministic": True,
+                         "props": ["C13", "C19", "C04"], "families": ["hashseed", "template_subst"]},
     "numpy_to_blackbird": {"module": P + "program.py", "qual": "numpy_to_blackbird", "params": ["A", "var_name"], "modifies": [], "deterministic": True,
                            "props": ["C13", "C19"], "families": ["readonly_ops"]},
     "parameters": {"module": P + "program.py", "qual": "BlackbirdProgram.parameters", "params": ["self"], "modifies": [], "props": ["C13", "C19"],
@@ -39,7 +41,7 @@ FRAMES = {
     # C12: nothing reachable from the module tables is handed out with the program; handlers write only the tables and their own program
     "exitProgram": {"module": P + "listener.py", "qual": "BlackbirdListener.exitProgram", "params": ["self", "ctx"],
                     "modifies": ["param.self._program", "global._VAR", "global._PARAMS"], "outputs": ["param.self._program"],
-                    "independent_of": ["global._VAR!", "global._PARAMS!"], "props": ["C12", "C04"], "families": ["history"]},
+                    "independent_of": ["global._VAR!", "global._PARAMS!"], "props": ["C12", "C04", "C19"], "families": ["history", "hashseed"]},
     "enterProgram": {"module": P + "listener.py", "qual": "BlackbirdListener.enterProgram", "params": ["self", "ctx"],
                      "modifies": ["param.self._program", "global._VAR", "global._PARAMS"], "outputs": ["param.self._program"],
                      "independent_of": ["global._VAR!", "global._PARAMS!"], "props": ["C12"], "families": ["history"]},
